@@ -605,5 +605,111 @@ impl<Db: Database> Storage<Db> {
 //@end
 }
 
+// =====================================================================================
+// retain / clear_retain (retained_query.rs): who is a root for the collector
+// =====================================================================================
+// `db: &Db` is represented by unique access to its Storage (`db.get_storage()` is the identity),
+// as in unit pico_source. dashmap's entry API with prophecy-style stand-ins.
+#[verifier::reject_recursive_types(K)]
+#[verifier::reject_recursive_types(V)]
+pub struct OccupiedEntry<'a, K, V> { pub map: &'a mut DashMap<K, V>, pub key: K }
+#[verifier::reject_recursive_types(K)]
+#[verifier::reject_recursive_types(V)]
+pub struct VacantEntry<'a, K, V> { pub map: &'a mut DashMap<K, V>, pub key: K }
+#[verifier::reject_recursive_types(K)]
+#[verifier::reject_recursive_types(V)]
+pub enum Entry<'a, K, V> { Occupied(OccupiedEntry<'a, K, V>), Vacant(VacantEntry<'a, K, V>) }
+impl<'a, K, V> Entry<'a, K, V> {
+    pub open spec fn key(&self) -> K { match self { Entry::Occupied(o) => o.key, Entry::Vacant(v) => v.key } }
+    pub open spec fn map_cur(&self) -> Map<K, V> { match self { Entry::Occupied(o) => o.map@, Entry::Vacant(v) => v.map@ } }
+    #[verifier::prophetic]
+    pub open spec fn map_fin(&self) -> Map<K, V> { match self { Entry::Occupied(o) => final(o.map)@, Entry::Vacant(v) => final(v.map)@ } }
+}
+impl<K, V> DashMap<K, V> {
+    #[verifier::external_body]
+    pub fn entry<'a>(&'a mut self, key: K) -> (e: Entry<'a, K, V>)
+        ensures e.key() == key, e.map_cur() == old(self)@, e.map_fin() == final(self)@,
+            (e is Occupied) == old(self)@.contains_key(key),
+    { unimplemented!() }
+}
+impl<'a, K, V> VacantEntry<'a, K, V> {
+    #[verifier::external_body]
+    pub fn insert(self, value: V) ensures final(self.map)@ == old(self.map)@.insert(self.key, value)
+    { unimplemented!() }
+}
+impl<'a, K, V> OccupiedEntry<'a, K, V> {
+    pub open spec fn m(&self) -> Map<K, V> { self.map@ }
+    #[verifier::prophetic]
+    pub open spec fn fin(&self) -> Map<K, V> { final(self.map)@ }
+    #[verifier::external_body]
+    pub fn get(&self) -> (r: &V) requires self.m().contains_key(self.key) ensures *r == self.m()[self.key]
+    { unimplemented!() }
+    #[verifier::external_body]
+    pub fn get_mut(&mut self) -> (r: &mut V)
+        requires old(self).m().contains_key(old(self).key)
+        ensures *r == old(self).m()[old(self).key], final(self).key == old(self).key,
+            final(self).m() == old(self).m().insert(old(self).key, *final(r)),
+            final(self).fin() == old(self).fin(),
+    { unimplemented!() }
+    #[verifier::external_body]
+    pub fn remove(self) -> (r: V)
+        requires self.m().contains_key(self.key)
+        ensures final(self.map)@ == old(self.map)@.remove(self.key), r == old(self.map)@[self.key]
+    { unimplemented!() }
+}
+//@item rel=crates/pico/src/memo_ref.rs kind=enum name=MemoRefKind prefix="#[derive(Clone, Copy, PartialEq, Eq, Structural)] pub"
+//@item rel=crates/pico/src/memo_ref.rs kind=struct name=MemoRef prefix="#[verifier::reject_recursive_types(T)] pub" sub="PhantomData<T>=>core::marker::PhantomData<T>"
+//@item rel=crates/pico/src/retained_query.rs kind=struct name=RetainedQuery prefix="pub"
+impl<Db: Database> Storage<Db> {
+    /// every entry of retained_calls counts at least one holder (entries are removed at zero)
+    pub open spec fn retained_pos(&self) -> bool {
+        forall|id: DerivedNodeId| #[trigger] self.retained_calls@.contains_key(id) ==> self.retained_calls@[id] >= 1
+    }
+    /// number of RetainedQuery guards outstanding for a query
+    pub open spec fn holders(&self, id: DerivedNodeId) -> nat {
+        if self.retained_calls@.contains_key(id) { self.retained_calls@[id] as nat } else { 0 }
+    }
+}
+
+//@fn rel=crates/pico/src/retained_query.rs name=retain vis=pub ret=r serves=C03
+//@hsub "db: &Db," => "db: &mut Storage<Db>,"
+//@sub "db\s*\.get_storage\(\)" => "db" n=*
+//@contract
+    requires
+        old(db).roots_live(), old(db).retained_pos(),
+        // only results that exist are retained (a MemoRef is obtained by calling the function)
+        old(db).internal.has(memo_ref.derived_node_id),
+        old(db).holders(memo_ref.derived_node_id) < usize::MAX,
+    ensures
+        r.derived_node_id == memo_ref.derived_node_id && !r.cleared,
+        // one more holder for this query, nobody else's count changes: the query is a root of
+        // every collection until all its holders have been cleared
+        final(db).holders(memo_ref.derived_node_id) == old(db).holders(memo_ref.derived_node_id) + 1
+            && final(db).retained_calls@.contains_key(memo_ref.derived_node_id)
+            && (forall|id: DerivedNodeId| id != memo_ref.derived_node_id ==> #[trigger] final(db).holders(id) == old(db).holders(id)), //@O C03.O-7_retain_adds_exactly_one_holder_and_makes_the_query_a_root
+        final(db).internal == old(db).internal, final(db).top_level_calls == old(db).top_level_calls,
+        final(db).top_level_call_lru_cache == old(db).top_level_call_lru_cache,
+        final(db).roots_live() && final(db).retained_pos(), //@O C03.O-7_retain_keeps_the_root_invariants
+//@end
+
+//@fn rel=crates/pico/src/retained_query.rs name=clear_retain vis=pub serves=C03
+//@rw R2
+//@hsub "db: &Db," => "db: &mut Storage<Db>,"
+//@sub "db\s*\.get_storage\(\)" => "db" n=*
+//@contract
+    requires
+        old(db).roots_live(), old(db).retained_pos(),
+        // the guard was handed out by retain and not cleared yet
+        old(db).holders(retained_query.derived_node_id) >= 1,
+    ensures
+        // exactly one holder less; the query stops being a root only when the LAST holder goes
+        final(db).holders(retained_query.derived_node_id) == old(db).holders(retained_query.derived_node_id) - 1
+            && (final(db).retained_calls@.contains_key(retained_query.derived_node_id) <==> old(db).holders(retained_query.derived_node_id) >= 2)
+            && (forall|id: DerivedNodeId| id != retained_query.derived_node_id ==> #[trigger] final(db).holders(id) == old(db).holders(id)), //@O C03.O-7_clear_retain_releases_exactly_one_holder
+        final(db).internal == old(db).internal, final(db).top_level_calls == old(db).top_level_calls,
+        final(db).top_level_call_lru_cache == old(db).top_level_call_lru_cache,
+        final(db).roots_live() && final(db).retained_pos(), //@O C03.O-7_clear_retain_keeps_the_root_invariants
+//@end
+
 } // verus!
 fn main() {}
